@@ -18,8 +18,8 @@ Quiet   == calls' = calls
 TRobust == /\ IsEvent("Robust")
            /\ \/ Enter /\ Ev.pend = 0
               \/ BeginXfer /\ Ev.pend = 0      \* the switch happens at a unit boundary, before the first message byte
-              \/ EndXfer
-              \/ Leave
+              \/ EndXfer /\ (Traces[t].cut \/ Ev.pend = 0)   \* on a link that is not cut every call stands at a unit boundary
+              \/ Leave /\ (Traces[t].cut \/ Ev.pend = 0)
            /\ Calling
            /\ robust' = Ev.on
            /\ Consume
